@@ -129,6 +129,11 @@ func distribute(tp *Tape, p *Program, l Layout, maxReaders int) []ReaderSpec {
 		}
 		rs := ReaderSpec{Text: text}
 		drawDelivery(tp, &rs)
+		if tp.Chance(6, "seekable") {
+			// a reader that can seek, handed over at the position where the script starts: what lies before that
+			// position (a node the host skipped, a header of the host's own file format) is not part of the script
+			rs.Before = []string{"title: Skipped\n---\nSK a node the host had already skipped\n===\n", "YARNPACK\x01\x02 <<<< header of the host's own container format >>\n\t \tnot yarn\n", "title: Skipped\ntracking: never\n---\n<<jump Nowhere>>\n===\n\n"}[tp.Int(0, 2, "beforekind")]
+		}
 		out = append(out, rs)
 	}
 	return out
